@@ -79,7 +79,11 @@ class Universe:
     def __init__(self, tmp, idx):
         self.name = "verif_c14_%d_%d" % (os.getpid(), idx)
         with open(os.path.join(tmp, self.name + ".py"), "w") as f:
-            f.write(SRC)
+            # every module of a run gets its own line numbers: code objects compare by VALUE without the file
+            # name, and codefind keys its function cache by code object — two modules with identical text would
+            # share cache entries (seen in the thorough tier, when codefind's gc scans get slow and it switches to
+            # that cache: references of one module resolved to the twin module's functions)
+            f.write("\n" * (idx if idx < 1000 else 100 + (idx - 1000)) + SRC)
         self.mod = importlib.import_module(self.name)
         M = self.mod
         k, inner = M.K(), M.K.Inner()
@@ -121,7 +125,22 @@ def resolve_all(uni):
                 out.append({"ok": i})
             else:
                 j = [k for k, f in enumerate(uni.fns) if f[2] is got]
-                out.append({"ok": j[0]} if j else "wrong:%r" % (got,))
+                if j:
+                    out.append({"ok": j[0]})
+                else:
+                    # diagnosis: what the registry offers for this path
+                    try:
+                        import codefind
+                        _, module, *hier = ref.split("/")
+                        co = codefind.find_code(*hier, module=module or "__main__")
+                        cands = [(getattr(f, "__module__", "?"), bool(getattr(f, "__ptera_discard__", False)), f is target,
+                                  getattr(f, "__globals__", None) is target.__globals__)
+                                 for f in codefind.get_functions(co)]
+                        diag = " [registry code is the target's current code: %s; functions on it (module, discard, is target, "\
+                               "same globals): %r; module in sys.modules: %s]" % (co is target.__code__, cands, module in sys.modules)
+                    except Exception as e2:
+                        diag = " [diagnosis failed: %s]" % e2
+                    out.append("wrong:%r%s" % (got, diag))
         except Exception as e:
             msg = str(e)
             if "ambiguous" in msg:
@@ -279,7 +298,12 @@ def run(chk):
     try:
         nuni = 3 if chk.tier == "quick" else 25
         per = 25 if chk.tier == "quick" else 120
+        from codefind import code_registry
         for u in range(nuni):
+            # codefind answers "which functions run this code" by a gc scan, or — when scans get slow in a large
+            # process — from a cache that ptera has to keep up to date: every other module is run in that mode
+            code_registry.always_use_cache = (u % 2 == 1)
+            chk.dist("codefind cache mode" if u % 2 == 1 else "codefind scan mode")
             uni = Universe(tmp, u)
             for _ in range(per):
                 run_history(chk, uni, drv, chk.rng, stats)
@@ -295,6 +319,7 @@ def run(chk):
             core_t = [t for t in trios if {x[0] for x in t} in ({"nested", "outer"}, {"helper", "driver"})]
             trios = core_t + chk.rng.sample([t for t in trios if t not in core_t], 8)
         for k, trio in enumerate(trios):
+            code_registry.always_use_cache = (k % 2 == 1)
             uni = Universe(tmp, 1000 + k)
             by = chk.rng.choice(["name", "ref"])
             sc = []
@@ -304,6 +329,7 @@ def run(chk):
             run_history(chk, uni, drv, chk.rng, stats, script=sc)
             chk.dist("directed")
             uni.drop()
+        code_registry.always_use_cache = False
         witness_tooled(chk)
     finally:
         sys.path.remove(tmp)
